@@ -23,13 +23,14 @@ static size_t mkval(unsigned char *b, int v) {
     case 4: return 0;
     case 5: memcpy(b, "a\0c\xfe", 4); return 4;      /* same size as 2 and equal up to the first NUL */
     case 6: memcpy(b, "on", 2); return 2;              /* a proper prefix of value 1 */
+    case 7: for (int i = 0; i < 1024; i++) b[i] = (unsigned char) ('a' + (i * 5 + i / 26) % 26); b[1024] = 0; return 1025;   /* 1024 characters: the size of the formatting scratch buffer */
     default: b[0] = (unsigned char) v; return 1;
     }
 }
 static int vid(const void *d, size_t n) {
     if (!d) return 0;
-    unsigned char t[64];
-    for (int v = 1; v <= 6; v++) { size_t tn = mkval(t, v); if (tn == n && !memcmp(d, t, n)) return v; }
+    unsigned char t[1100];
+    for (int v = 1; v <= 7; v++) { size_t tn = mkval(t, v); if (tn == n && !memcmp(d, t, n)) return v; }
     return -1;
 }
 static int kid(const char *s) {
@@ -37,7 +38,7 @@ static int kid(const char *s) {
     /* keys end in "#<id>" */
     const char *h = strrchr(s, '#');
     if (!h) {            /* the equal-hash pair carries no suffix */
-        for (int j = 1; j <= NK && j <= 64; j++) if (!strcmp(s, kn[j])) return j;
+        for (int j = NK; j >= 1; j--) if (!strcmp(s, kn[j])) return j;
         return -1;
     }
     int k = atoi(h + 1);
@@ -101,10 +102,17 @@ int main(int argc, char **argv) {
         if (ph == qhashmurmur3_32(PAIR[1], strlen(PAIR[1]))) {
             int home = (int) (ph % (uint32_t) realR), first = 0;
             if (!strcmp(argv[5], "-") && NK >= 2) { khome[1] = khome[2] = home; }       /* random histories: keys 1 and 2 */
+            int second = 0;
             for (int k = 1; k <= NK; k++) {
                 if (khome[k] != home) continue;
                 if (!first) first = k;
-                else { strcpy(kn[first], PAIR[0]); strcpy(kn[k], PAIR[1]); break; }
+                else { strcpy(kn[first], PAIR[0]); strcpy(kn[k], PAIR[1]); second = k; break; }
+            }
+            /* ... and the empty string as a key (its hash is 0): the last key whose home slot is 0 and that is not one of the pair */
+            for (int k = NK; k >= 1; k--) {
+                if (k == first || k == second) continue;
+                if (!strcmp(argv[5], "-")) { kn[k][0] = 0; khome[k] = 0; break; }
+                if (khome[k] == 0) { kn[k][0] = 0; break; }
             }
         }
     }
@@ -160,7 +168,7 @@ int main(int argc, char **argv) {
         int inject = (inj_at || inj_from) && (!strcmp(op, "put") || !strcmp(op, "get") || !strcmp(op, "walk"));
         for (long kk = 1;; kk++) {
             if (inject && kk > 300) inject = 0;      /* give up injecting: finish the operation normally */
-            unsigned char vb0[64]; size_t vn = mkval(vb0, v);
+            unsigned char vb0[1100]; size_t vn = mkval(vb0, v);
             char *name = NULL; unsigned char *vb = vh_malloc(vn ? vn : 1);
             memcpy(vb, vb0, vn);
             if (k) { name = vh_malloc(strlen(kn[k]) + 1); strcpy(name, kn[k]); }
@@ -175,6 +183,7 @@ int main(int argc, char **argv) {
             if (!strcmp(op, "put")) {
                 if (v == 1) ok = (vh_step & 2) ? T->putstr(T, name, (char *) vb) : T->putstrf(T, name, "%s", (char *) vb);
                 else if (v == 3) ok = T->putint(T, name, INTVAL);
+                else if (v == 7) ok = T->putstrf(T, name, "%.512s%s", (char *) vb, (char *) vb + 512);
                 else ok = T->put(T, name, vb, vn);
             } else if (!strcmp(op, "get")) {
                 /* typed getters chosen by what is stored, so every wrapper is exercised */
